@@ -45,6 +45,53 @@ TRUSTED_BASE = [
 ]
 
 
+# --------------------------------------------------------------------------- anchored sources
+
+def _anchor_table() -> Dict[str, List[str]]:
+    tab = {}
+    for line in open(os.path.join(VERIF, "properties.jsonl")):
+        if line.strip():
+            p = json.loads(line)
+            tab[p["id"]] = list(p.get("anchors", {}).get("files", []))
+    return tab
+
+
+def all_anchor_files() -> List[str]:
+    return sorted({f for fs in _anchor_table().values() for f in fs})
+
+
+def _norm_hash(path: str) -> str:
+    """sha256 of the AST dump without docstrings: comments, blank lines and formatting do not count"""
+    import ast
+    import hashlib
+    try:
+        tree = ast.parse(open(path).read())
+    except (OSError, SyntaxError) as e:
+        return f"unreadable:{type(e).__name__}"
+    for node in ast.walk(tree):
+        body = getattr(node, "body", None)
+        if isinstance(body, list) and body and isinstance(body[0], ast.Expr) and \
+                isinstance(getattr(body[0], "value", None), ast.Constant) and isinstance(body[0].value.value, str):
+            node.body = body[1:] or [ast.Pass()]
+    return hashlib.sha256(ast.dump(tree).encode()).hexdigest()
+
+
+def anchor_hashes(files: List[str]) -> Dict[str, str]:
+    return {f: _norm_hash(os.path.join(REPO, f)) for f in files}
+
+
+def anchor_drift(pid: str) -> List[str]:
+    """Anchored source files of the property whose normalised AST differs from the baseline the models were written
+    against (anchors_baseline.json, tools/gen_anchors.py).  Not a violation by itself: it enlarges the search."""
+    path = os.path.join(VERIF, "anchors_baseline.json")
+    if not os.path.exists(path):
+        return []
+    base = json.load(open(path))
+    files = _anchor_table().get(pid, [])
+    cur = anchor_hashes(files)
+    return sorted(f for f in files if base.get(f) != cur[f])
+
+
 # --------------------------------------------------------------------------- utils
 
 def strip_lean_comments(src: str) -> str:
